@@ -676,7 +676,7 @@ Section Selectors.
   Lemma leaf_nested r t second j :
     leaf_json st c second r t = Some j ->
     exists text, out_text st c r t true second = Some (text, tflag c second true)
-                 /\ LXs text (tokens_of j).
+                 /\ is_nil text = false /\ LXs text (tokens_of j).
   Proof.
     unfold leaf_json, out_text, tflag. destruct (get_res st r) as [rv|]; [|discriminate].
     destruct (get_tsel rv t) as [[b e]|]; [|discriminate].
@@ -684,17 +684,18 @@ Section Selectors.
     destruct second.
     - pose proof cfg_tpl as Ht. destruct (c_template c) as [tpl|]; [|discriminate].
       intros E. injection E as <-. cbn [negb andb orb is_nil app]. rewrite !app_nil_r.
-      eexists. split; [reflexivity|]. apply LXs_q. apply fill_template_plain; [exact Ht|exact Hi].
+      eexists. split; [reflexivity|]. split; [reflexivity|].
+      apply LXs_q. apply fill_template_plain; [exact Ht|exact Hi].
     - intros E. injection E as <-. cbn [negb andb orb]. rewrite andb_false_r. cbn [app].
-      rewrite !andb_true_r. eexists. split; [reflexivity|]. apply LXs_source. exact Hi.
+      rewrite !andb_true_r. eexists. split; [reflexivity|]. split; [reflexivity|]. apply LXs_source. exact Hi.
   Qed.
 
   Lemma annref_ok a j :
     annref_json st c a = Some j ->
-    exists text, out_annref st c a = Some text /\ LXs text (tokens_of j).
+    exists text, out_annref st c a = Some text /\ is_nil text = false /\ LXs text (tokens_of j).
   Proof.
     unfold annref_json, out_annref. destruct (get_ann st a) as [av|]; [|discriminate].
-    destruct (a_id av) as [i|]; intros E; injection E as <-; eexists; (split; [reflexivity|]).
+    destruct (a_id av) as [i|]; intros E; injection E as <-; eexists; (split; [reflexivity|]); (split; [reflexivity|]).
     - eapply LXs_eq.
       + eapply LXs_app; [lxc|]. eapply LXs_app; [apply LXs_q; apply into_iri_plain; apply cfg_ann|lxc].
       + reflexivity.
@@ -703,55 +704,43 @@ Section Selectors.
 
   (* ---- lists of items ---- *)
 
-  Lemma csv_concat : forall (itss : list (list json)),
-    Forall (fun its => its <> []) itss ->
-    csv (map tokens_of (List.concat itss)) = csv (map (fun its => csv (map tokens_of its)) itss).
-  Proof.
-    induction itss as [|its itss IH]; intros HF; [reflexivity|].
-    inversion HF as [|? ? Hne HF']; subst. cbn [List.concat map].
-    destruct itss as [|its' itss].
-    - cbn [List.concat]. rewrite app_nil_r. reflexivity.
-    - rewrite map_app, csv_app_nonnil.
-      + rewrite IH by exact HF'. reflexivity.
-      + destruct its; [congruence|discriminate].
-      + inversion HF' as [|? ? Hne' _]; subst. cbn [List.concat]. destruct its'; [congruence|discriminate].
-  Qed.
+  Lemma is_nil_false {X} (l : list X) : is_nil l = false -> l <> [].
+  Proof. destruct l; [discriminate|discriminate]. Qed.
 
-  Lemma concat_nonnil (itss : list (list json)) :
-    itss <> [] -> Forall (fun its => its <> []) itss -> List.concat itss <> [].
-  Proof.
-    intros H HF. destruct itss as [|its itss]; [congruence|]. inversion HF; subst.
-    cbn [List.concat]. destruct its; [congruence|discriminate].
-  Qed.
-
-  (* the comma logic of the loops: model results vs intended items, element by element *)
+  (* the comma logic of the loops (push_item): a selector that contributes no item contributes
+     no text and no separator; model results vs intended items, element by element *)
   Lemma join_items_rel {X} (f : X -> option (str * bool)) (g : X -> option (list json)) (h : X -> bool) second :
     forall l itss,
     (forall x its, In x l -> g x = Some its ->
-       exists text, f x = Some (text, tflag c second (h x)) /\ its <> [] /\ LXs text (csv (map tokens_of its))) ->
+       exists text, f x = Some (text, tflag c second (h x))
+                    /\ is_nil text = is_nil its /\ LXs text (csv (map tokens_of its))) ->
     all_some (map g l) = Some itss ->
     exists text, join_items (map f l) = Some (text, tflag c second (existsb h l))
-                 /\ Forall (fun its => its <> []) itss
-                 /\ LXs text (csv (map (fun its => csv (map tokens_of its)) itss)).
+                 /\ is_nil text = is_nil (List.concat itss)
+                 /\ LXs text (csv (map tokens_of (List.concat itss))).
   Proof.
     induction l as [|x l IH]; intros itss H E.
-    - cbn in E. injection E as <-. exists []. split; [|split; [constructor|apply LXs_nil]].
+    - cbn in E. injection E as <-. exists []. split; [|split; [reflexivity|apply LXs_nil]].
       cbn. unfold tflag. rewrite andb_false_r. reflexivity.
     - cbn [map all_some] in E. destruct (g x) as [its|] eqn:Eg; [|discriminate].
       destruct (all_some (map g l)) as [itss'|] eqn:El; [|discriminate]. injection E as <-.
-      destruct (H x its (or_introl eq_refl) Eg) as (tx & Hfx & Hne & Hlx).
-      destruct (IH itss' (fun y its' Hy => H y its' (or_intror Hy)) eq_refl) as (tl & Hfl & HF & Hll).
-      cbn [map join_items]. rewrite Hfx, Hfl.
-      eexists. split; [|split; [constructor; assumption|]].
+      destruct (H x its (or_introl eq_refl) Eg) as (tx & Hfx & Hnx & Hlx).
+      destruct (IH itss' (fun y its' Hy => H y its' (or_intror Hy)) eq_refl) as (tl & Hfl & Hnl & Hll).
+      cbn [map join_items]. rewrite Hfx, Hfl. cbn [List.concat].
+      eexists. split; [|split].
       + f_equal. f_equal. cbn [existsb]. unfold tflag.
         destruct (is_some (c_template c)), second, (h x), (existsb h l); reflexivity.
-      + destruct l as [|y l].
-        * cbn in El. injection El as <-. cbn [map is_nil app csv]. cbn in Hfl. injection Hfl as <-.
-          rewrite app_nil_r. exact Hlx.
-        * cbn [map is_nil]. destruct itss' as [|its' itss']; [cbn in El; destruct (g y); [destruct (all_some (map g l))|]; discriminate|].
-          change (csv (map (fun its0 => csv (map tokens_of its0)) (its :: its' :: itss')))
-            with (csv (map tokens_of its) ++ [TComma] ++ csv (map (fun its0 => csv (map tokens_of its0)) (its' :: itss'))).
-          apply LXs_app; [exact Hlx|]. exact (LXs_app [44] tl [TComma] _ LXs_comma Hll).
+      + rewrite is_nil_app, <- Hnx, <- Hnl. destruct (is_nil tx) eqn:E1; [reflexivity|].
+        destruct (is_nil tl) eqn:E2; [rewrite E1; reflexivity|]. destruct tx; [discriminate|reflexivity].
+      + destruct (is_nil tx) eqn:E1.
+        * symmetry in Hnx. destruct its; [|discriminate]. exact Hll.
+        * destruct (is_nil tl) eqn:E2.
+          -- symmetry in Hnl. destruct (List.concat itss'); [|discriminate].
+             rewrite app_nil_r. exact Hlx.
+          -- rewrite map_app, csv_app_nonnil.
+             ++ apply LXs_app; [exact Hlx|]. exact (LXs_app [44] tl [TComma] _ LXs_comma Hll).
+             ++ symmetry in Hnx. destruct its; [discriminate|discriminate].
+             ++ symmetry in Hnl. destruct (List.concat itss'); [discriminate|discriminate].
   Qed.
 
   Definition has_text (s : sel) : bool := negb (is_nil (sel_texts st s)).
@@ -784,22 +773,8 @@ Section Selectors.
       rewrite (IH js' eq_refl). reflexivity.
   Qed.
 
-  Lemma csv_singletons js :
-    csv (map (fun its => csv (map tokens_of its)) (map (fun j : json => [j]) js)) = csv (map tokens_of js).
-  Proof. rewrite map_map. reflexivity. Qed.
-
-  Lemma all_some_length {X} : forall (l : list (option X)) xs, all_some l = Some xs -> length xs = length l.
-  Proof.
-    induction l as [|o l IH]; intros xs E.
-    - cbn in E. injection E as <-. reflexivity.
-    - cbn [all_some] in E. destruct o; [|discriminate]. destruct (all_some l) eqn:El; [|discriminate].
-      injection E as <-. cbn. f_equal. apply IH. reflexivity.
-  Qed.
-
-  Lemma seq_range_nonnil b e : Nat.leb b e = true -> seq b (S e - b) <> [].
-  Proof.
-    intros H. apply Nat.leb_le in H. destruct (S e - b)%nat eqn:E; [lia|]. discriminate.
-  Qed.
+  Lemma concat_singletons (js : list json) : List.concat (map (fun j => [j]) js) = js.
+  Proof. induction js as [|j js IH]; [reflexivity|]. cbn. rewrite IH. reflexivity. Qed.
 
   Lemma ranged_no_text l :
     existsb (fun a => match ranged_ann_text st false a with Some (Some _) => true | _ => false end) l = false.
@@ -811,11 +786,10 @@ Section Selectors.
   (* the object of a complex selector, given its items *)
   Lemma complex_ok (ty : str) (l : list sel) second its :
     plain ty = true ->
-    Forall (fun s => forall its, no_nested_unexportable s = true -> ranges_ok s = true ->
+    Forall (fun s => forall its,
                      items_json st c second s = Some its ->
                      exists text, output_selector st c true second s = Some (text, tflag c second (has_text s))
-                                  /\ its <> [] /\ LXs text (csv (map tokens_of its))) l ->
-    forallb no_nested_unexportable l = true -> forallb ranges_ok l = true ->
+                                  /\ is_nil text = is_nil its /\ LXs text (csv (map tokens_of its))) l ->
     match all_some (map (items_json st c second) l) with
     | Some itss => Some [JObj [([116; 121; 112; 101], JStr ty); ([105; 116; 101; 109; 115], JArr (List.concat itss))]]
     | None => None
@@ -827,92 +801,90 @@ Section Selectors.
                   ++ [44; 32; 34; 105; 116; 101; 109; 115; 34; 58; 32; 91] ++ items ++ [32; 93; 125], n)
       | None => None
       end = Some (text, tflag c second (existsb has_text l))
-      /\ its <> [] /\ LXs text (csv (map tokens_of its)).
+      /\ is_nil text = is_nil its /\ LXs text (csv (map tokens_of its)).
   Proof.
-    intros Hty IH Hn Hr E.
+    intros Hty IH E.
     destruct (all_some (map (items_json st c second) l)) as [itss|] eqn:Ea; [|discriminate].
     injection E as <-.
     destruct (join_items_rel (output_selector st c true second) (items_json st c second) has_text second l itss)
-      as (items & Hj & HF & Hl).
-    { intros x its Hx Hg. rewrite Forall_forall in IH. apply (IH x Hx its); [| |exact Hg].
-      - rewrite forallb_forall in Hn. apply Hn. exact Hx.
-      - rewrite forallb_forall in Hr. apply Hr. exact Hx. }
+      as (items & Hj & _ & Hl).
+    { intros x its Hx Hg. rewrite Forall_forall in IH. apply (IH x Hx its). exact Hg. }
     { exact Ea. }
-    rewrite Hj. eexists. split; [reflexivity|]. split; [discriminate|].
+    rewrite Hj. eexists. split; [reflexivity|]. split; [reflexivity|].
     cbn [map csv]. eapply LXs_eq.
     - eapply LXs_app; [lxc|]. eapply LXs_app; [apply LXs_q; exact Hty|].
       eapply LXs_app; [lxc|]. eapply LXs_app; [exact Hl|lxc].
-    - rewrite <- (csv_concat itss HF).
-      rewrite tokens_of_obj'. cbn [map csv]. unfold mem_tokens. cbn [fst snd]. rewrite tokens_of_arr'.
+    - rewrite tokens_of_obj'. cbn [map csv]. unfold mem_tokens. cbn [fst snd]. rewrite tokens_of_arr'.
       cbn [app tokens_of]. rewrite <- !app_assoc. reflexivity.
   Qed.
 
+  (* a selector below a complex selector: its text is the comma separated list of its items
+     (none for a data key / data selector, which is skipped; several for a ranged selector) *)
   Lemma nested_sel : forall s second its,
-    no_nested_unexportable s = true -> ranges_ok s = true ->
     items_json st c second s = Some its ->
     exists text, output_selector st c true second s = Some (text, tflag c second (has_text s))
-                 /\ its <> [] /\ LXs text (csv (map tokens_of its)).
+                 /\ is_nil text = is_nil its /\ LXs text (csv (map tokens_of its)).
   Proof.
     intros s second. induction s as [r t | a o | r | d | l IH | l IH | l IH | | | r b e | b e w] using sel_ind';
-      intros its Hn Hr E.
+      intros its E.
     - (* TextSelector *)
       cbn [items_json] in E. destruct (leaf_json st c second r t) as [j|] eqn:El; [|discriminate].
-      injection E as <-. destruct (leaf_nested r t second j El) as (text & H1 & H2).
-      exists text. cbn [output_selector]. split; [exact H1|]. split; [discriminate|exact H2].
+      injection E as <-. destruct (leaf_nested r t second j El) as (text & H1 & H0 & H2).
+      exists text. cbn [output_selector]. split; [exact H1|]. split; [exact H0|exact H2].
     - destruct o as [[r t]|].
       + cbn [items_json] in E. destruct (leaf_json st c second r t) as [j|] eqn:El; [|discriminate].
-        injection E as <-. destruct (leaf_nested r t second j El) as (text & H1 & H2).
-        exists text. cbn [output_selector]. split; [exact H1|]. split; [discriminate|exact H2].
+        injection E as <-. destruct (leaf_nested r t second j El) as (text & H1 & H0 & H2).
+        exists text. cbn [output_selector]. split; [exact H1|]. split; [exact H0|exact H2].
       + cbn [items_json] in E. destruct (annref_json st c a) as [j|] eqn:El; [|discriminate].
-        injection E as <-. destruct (annref_ok a j El) as (text & H1 & H2).
+        injection E as <-. destruct (annref_ok a j El) as (text & H1 & H0 & H2).
         exists text. cbn [output_selector]. rewrite H1. unfold has_text. cbn [sel_texts is_nil negb].
-        rewrite tflag_false. split; [reflexivity|]. split; [discriminate|exact H2].
+        rewrite tflag_false. split; [reflexivity|]. split; [exact H0|exact H2].
     - (* ResourceSelector *)
       cbn [items_json output_selector] in *. destruct (get_res st r) as [rv|]; [|discriminate].
       injection E as <-. unfold has_text. cbn [sel_texts is_nil negb]. rewrite tflag_false.
-      eexists. split; [reflexivity|]. split; [discriminate|].
+      eexists. split; [reflexivity|]. split; [reflexivity|].
       cbn [map csv]. eapply LXs_eq.
       + eapply LXs_app; [lxc|]. eapply LXs_app; [apply LXs_q; apply into_iri_plain; apply cfg_res|lxc].
       + reflexivity.
     - (* DataSetSelector *)
       cbn [items_json output_selector] in *. destruct (get_set st d) as [i|]; [|discriminate].
       injection E as <-. unfold has_text. cbn [sel_texts is_nil negb]. rewrite tflag_false.
-      eexists. split; [reflexivity|]. split; [discriminate|].
+      eexists. split; [reflexivity|]. split; [reflexivity|].
       cbn [map csv]. eapply LXs_eq.
       + eapply LXs_app; [lxc|]. eapply LXs_app; [apply LXs_q; apply into_iri_plain; apply cfg_res|lxc].
       + reflexivity.
     - (* Multi *)
-      cbn [no_nested_unexportable ranges_ok] in Hn, Hr. cbn [items_json] in E.
+      cbn [items_json] in E.
       unfold has_text. cbn [sel_texts]. rewrite is_nil_flat_map. cbn [output_selector].
-      apply complex_ok; [reflexivity|exact IH|exact Hn|exact Hr|exact E].
-    - cbn [no_nested_unexportable ranges_ok] in Hn, Hr. cbn [items_json] in E.
+      apply complex_ok; [reflexivity|exact IH|exact E].
+    - cbn [items_json] in E.
       unfold has_text. cbn [sel_texts]. rewrite is_nil_flat_map. cbn [output_selector].
-      apply complex_ok; [reflexivity|exact IH|exact Hn|exact Hr|exact E].
-    - cbn [no_nested_unexportable ranges_ok] in Hn, Hr. cbn [items_json] in E.
+      apply complex_ok; [reflexivity|exact IH|exact E].
+    - cbn [items_json] in E.
       unfold has_text. cbn [sel_texts]. rewrite is_nil_flat_map. cbn [output_selector].
-      apply complex_ok; [reflexivity|exact IH|exact Hn|exact Hr|exact E].
-    - discriminate.
-    - discriminate.
+      apply complex_ok; [reflexivity|exact IH|exact E].
+    - (* DataKeySelector: skipped *)
+      cbn in E. injection E as <-. exists []. unfold has_text. cbn [sel_texts is_nil negb output_selector].
+      rewrite tflag_false. split; [reflexivity|]. split; [reflexivity|apply LXs_nil].
+    - cbn in E. injection E as <-. exists []. unfold has_text. cbn [sel_texts is_nil negb output_selector].
+      rewrite tflag_false. split; [reflexivity|]. split; [reflexivity|apply LXs_nil].
     - (* RangedTextSelector *)
-      cbn [items_json output_selector ranges_ok] in *.
+      cbn [items_json output_selector] in *.
       pose proof (all_some_one (fun t => leaf_json st c second r t) _ _ E) as E1.
       assert (Hp : forall t its', In t (seq b (S e - b)) ->
                  match leaf_json st c second r t with Some j => Some [j] | None => None end = Some its' ->
                  exists text, out_text st c r t true second = Some (text, tflag c second true)
-                              /\ its' <> [] /\ LXs text (csv (map tokens_of its'))).
+                              /\ is_nil text = is_nil its' /\ LXs text (csv (map tokens_of its'))).
       { intros t its' _ Hg. destruct (leaf_json st c second r t) as [j|] eqn:El; [|discriminate].
-        injection Hg as <-. destruct (leaf_nested r t second j El) as (text & H1 & H2).
-        exists text. split; [exact H1|]. split; [discriminate|exact H2]. }
+        injection Hg as <-. destruct (leaf_nested r t second j El) as (text & H1 & H0 & H2).
+        exists text. split; [exact H1|]. split; [exact H0|exact H2]. }
       destruct (join_items_rel (fun t => out_text st c r t true second) _ (fun _ => true) second _ _ Hp E1)
-        as (text & Hj & HF & Hl).
-      exists text. rewrite csv_singletons in Hl. split; [|split; [|exact Hl]].
-      + rewrite Hj. f_equal. f_equal. f_equal. unfold has_text. cbn [sel_texts].
-        pose proof (seq_range_nonnil b e Hr) as Hs. destruct (seq b (S e - b)); [congruence|reflexivity].
-      + pose proof (all_some_length _ _ E) as Hlen. rewrite map_length in Hlen.
-        pose proof (seq_range_nonnil b e Hr) as Hs. destruct its; [|discriminate].
-        destruct (seq b (S e - b)); [congruence|discriminate].
+        as (text & Hj & Hn & Hl).
+      exists text. rewrite concat_singletons in Hl, Hn. split; [|split; [exact Hn|exact Hl]].
+      rewrite Hj. f_equal. f_equal. f_equal. unfold has_text. cbn [sel_texts].
+      destruct (seq b (S e - b)); reflexivity.
     - (* RangedAnnotationSelector *)
-      cbn [items_json output_selector ranges_ok] in *.
+      cbn [items_json output_selector] in *.
       set (g := fun a => match ranged_ann_text st w a with
                          | Some (Some (r, t)) => leaf_json st c second r t
                          | Some None => annref_json st c a
@@ -932,37 +904,34 @@ Section Selectors.
       assert (Hp : forall a its', In a (seq b (S e - b)) ->
                  match g a with Some j => Some [j] | None => None end = Some its' ->
                  exists text, f a = Some (text, tflag c second (h a))
-                              /\ its' <> [] /\ LXs text (csv (map tokens_of its'))).
+                              /\ is_nil text = is_nil its' /\ LXs text (csv (map tokens_of its'))).
       { intros a its' _ Hg. subst g f h. cbn beta in *. unfold ranged_ann_text in *.
         destruct (get_ann st a) as [av|]; [|discriminate].
         destruct w.
         - destruct (textselection_handle (a_target av)) as [t|], (resource_handle (a_target av)) as [r|].
           + destruct (leaf_json st c second r t) as [j|] eqn:El; [|discriminate].
-            injection Hg as <-. destruct (leaf_nested r t second j El) as (text & H1 & H2).
-            exists text. split; [exact H1|]. split; [discriminate|exact H2].
+            injection Hg as <-. destruct (leaf_nested r t second j El) as (text & H1 & H0 & H2).
+            exists text. split; [exact H1|]. split; [exact H0|exact H2].
           + destruct (annref_json st c a) as [j|] eqn:El; [|discriminate].
-            injection Hg as <-. destruct (annref_ok a j El) as (text & H1 & H2).
-            exists text. rewrite H1, tflag_false. split; [reflexivity|]. split; [discriminate|exact H2].
+            injection Hg as <-. destruct (annref_ok a j El) as (text & H1 & H0 & H2).
+            exists text. rewrite H1, tflag_false. split; [reflexivity|]. split; [exact H0|exact H2].
           + destruct (annref_json st c a) as [j|] eqn:El; [|discriminate].
-            injection Hg as <-. destruct (annref_ok a j El) as (text & H1 & H2).
-            exists text. rewrite H1, tflag_false. split; [reflexivity|]. split; [discriminate|exact H2].
+            injection Hg as <-. destruct (annref_ok a j El) as (text & H1 & H0 & H2).
+            exists text. rewrite H1, tflag_false. split; [reflexivity|]. split; [exact H0|exact H2].
           + destruct (annref_json st c a) as [j|] eqn:El; [|discriminate].
-            injection Hg as <-. destruct (annref_ok a j El) as (text & H1 & H2).
-            exists text. rewrite H1, tflag_false. split; [reflexivity|]. split; [discriminate|exact H2].
+            injection Hg as <-. destruct (annref_ok a j El) as (text & H1 & H0 & H2).
+            exists text. rewrite H1, tflag_false. split; [reflexivity|]. split; [exact H0|exact H2].
         - destruct (annref_json st c a) as [j|] eqn:El; [|discriminate].
-          injection Hg as <-. destruct (annref_ok a j El) as (text & H1 & H2).
+          injection Hg as <-. destruct (annref_ok a j El) as (text & H1 & H0 & H2).
           exists text. rewrite tflag_false.
-          destruct (resource_handle (a_target av)); rewrite H1; (split; [reflexivity|]); (split; [discriminate|exact H2]). }
-      destruct (join_items_rel f _ h second _ _ Hp E1) as (text & Hj & HF & Hl). subst f h.
-      exists text. rewrite csv_singletons in Hl. split; [|split; [|exact Hl]].
-      + rewrite Hj. f_equal. f_equal. f_equal. unfold has_text.
-        destruct w.
-        * cbn [sel_texts]. rewrite is_nil_flat_map. apply existsb_ext_in'. intros a _.
-          destruct (ranged_ann_text st true a) as [[rt|]|]; reflexivity.
-        * cbn [sel_texts is_nil negb]. apply ranged_no_text.
-      + pose proof (all_some_length _ _ E) as Hlen. rewrite map_length in Hlen.
-        pose proof (seq_range_nonnil b e Hr) as Hs. destruct its; [|discriminate].
-        destruct (seq b (S e - b)); [congruence|discriminate].
+          destruct (resource_handle (a_target av)); rewrite H1; (split; [reflexivity|]); (split; [exact H0|exact H2]). }
+      destruct (join_items_rel f _ h second _ _ Hp E1) as (text & Hj & Hn & Hl). subst f h.
+      exists text. rewrite concat_singletons in Hl, Hn. split; [|split; [exact Hn|exact Hl]].
+      rewrite Hj. f_equal. f_equal. f_equal. unfold has_text.
+      destruct w.
+      + cbn [sel_texts]. rewrite is_nil_flat_map. apply existsb_ext_in'. intros a _.
+        destruct (ranged_ann_text st true a) as [[rt|]|]; reflexivity.
+      + cbn [sel_texts is_nil negb]. apply ranged_no_text.
   Qed.
 
   (* ---- the target member ---- *)
@@ -1011,7 +980,6 @@ Section Selectors.
 
   Lemma target_complex s first :
     is_complex s = true ->
-    no_nested_unexportable s = true -> ranges_ok s = true ->
     items_json st c false s = Some [first] ->
     forall tj,
     (if is_some (c_template c) && (is_text_leaf s || negb (is_nil (sel_texts st s)))
@@ -1019,17 +987,17 @@ Section Selectors.
      else Some first) = Some tj ->
     exists text, target_text st c s = Some text /\ LXs text (mem_tokens (TARGET, tj)).
   Proof.
-    intros Hc Hn Hr E1 tj E.
+    intros Hc E1 tj E.
     assert (Hsame : forall second, output_selector st c false second s = output_selector st c true second s)
       by (intros second; destruct s; try discriminate; reflexivity).
     assert (Hleaf : is_text_leaf s = false) by (destruct s; try discriminate; reflexivity).
     rewrite Hleaf in E. cbn [orb] in E.
-    destruct (nested_sel s false [first] Hn Hr E1) as (t1 & H1 & _ & L1).
+    destruct (nested_sel s false [first] E1) as (t1 & H1 & _ & L1).
     unfold target_text. rewrite Hsame, H1, tflag_first. fold (has_text s) in E.
     destruct (is_some (c_template c) && has_text s).
     - destruct (items_json st c true s) as [[|second [|]]|] eqn:E2; try discriminate.
       injection E as <-.
-      destruct (nested_sel s true [second] Hn Hr E2) as (t2 & H2 & _ & L2).
+      destruct (nested_sel s true [second] E2) as (t2 & H2 & _ & L2).
       rewrite Hsame, H2. eexists. split; [reflexivity|].
       unfold mem_tokens, TARGET. cbn [fst snd map csv] in *. eapply LXs_eq.
       + eapply LXs_app; [lxc|]. eapply LXs_app; [exact L1|]. eapply LXs_app; [lxc|].
@@ -1039,11 +1007,10 @@ Section Selectors.
   Qed.
 
   Lemma target_ok s tj :
-    no_nested_unexportable s = true -> ranges_ok s = true ->
     target_json st c s = Some tj ->
     exists text, target_text st c s = Some text /\ LXs text (mem_tokens (TARGET, tj)).
   Proof.
-    intros Hn Hr E.
+    intros E.
     assert (Htext : forall r t,
               match leaf_json st c false r t with
               | Some j => Some [j] | None => None end
@@ -1071,32 +1038,32 @@ Section Selectors.
       unfold target_json in E. cbn [items_json is_text_leaf sel_texts is_nil negb orb] in E.
       rewrite andb_false_r in E.
       destruct (annref_json st c a) as [first|] eqn:E1; [|discriminate]. injection E as <-.
-      destruct (annref_ok a first E1) as (text & Ho & L).
+      destruct (annref_ok a first E1) as (text & Ho & _ & L).
       unfold target_text. cbn [output_selector]. rewrite Ho.
       eexists. split; [reflexivity|]. apply target_simple. exact L.
     - (* ResourceSelector *)
       unfold target_json in E. cbn [is_text_leaf sel_texts is_nil negb orb] in E. rewrite andb_false_r in E.
       destruct (items_json st c false (SRes r)) as [[|first [|]]|] eqn:E1; try discriminate. injection E as <-.
-      destruct (nested_sel (SRes r) false [first] Hn Hr E1) as (t1 & H1 & _ & L1).
+      destruct (nested_sel (SRes r) false [first] E1) as (t1 & H1 & _ & L1).
       unfold target_text. change (output_selector st c false false (SRes r)) with (output_selector st c true false (SRes r)).
       rewrite H1. unfold has_text. cbn [sel_texts is_nil negb]. rewrite tflag_false.
       eexists. split; [reflexivity|]. apply target_simple. exact L1.
     - (* DataSetSelector *)
       unfold target_json in E. cbn [is_text_leaf sel_texts is_nil negb orb] in E. rewrite andb_false_r in E.
       destruct (items_json st c false (SSet d)) as [[|first [|]]|] eqn:E1; try discriminate. injection E as <-.
-      destruct (nested_sel (SSet d) false [first] Hn Hr E1) as (t1 & H1 & _ & L1).
+      destruct (nested_sel (SSet d) false [first] E1) as (t1 & H1 & _ & L1).
       unfold target_text. change (output_selector st c false false (SSet d)) with (output_selector st c true false (SSet d)).
       rewrite H1. unfold has_text. cbn [sel_texts is_nil negb]. rewrite tflag_false.
       eexists. split; [reflexivity|]. apply target_simple. exact L1.
     - unfold target_json in E.
       destruct (items_json st c false (SMulti l)) as [[|first [|]]|] eqn:E1; try discriminate.
-      apply (target_complex (SMulti l) first eq_refl Hn Hr E1 tj E).
+      apply (target_complex (SMulti l) first eq_refl E1 tj E).
     - unfold target_json in E.
       destruct (items_json st c false (SComp l)) as [[|first [|]]|] eqn:E1; try discriminate.
-      apply (target_complex (SComp l) first eq_refl Hn Hr E1 tj E).
+      apply (target_complex (SComp l) first eq_refl E1 tj E).
     - unfold target_json in E.
       destruct (items_json st c false (SDir l)) as [[|first [|]]|] eqn:E1; try discriminate.
-      apply (target_complex (SDir l) first eq_refl Hn Hr E1 tj E).
+      apply (target_complex (SDir l) first eq_refl E1 tj E).
   Qed.
 
   (* ---- the @context ---- *)
@@ -1255,13 +1222,12 @@ Section Selectors.
   Theorem export_lex a av j :
     get_ann st a = Some av ->
     forallb value_ok (a_data av) = true ->
-    no_nested_unexportable (a_target av) = true -> ranges_ok (a_target av) = true ->
     export_ast st c a = Some j ->
     exists s, to_webannotation st c a = Some s /\ LXs s (tokens_of j).
   Proof.
-    intros Ha Hv Hn Hr E. unfold export_ast in E. rewrite Ha in E.
+    intros Ha Hv E. unfold export_ast in E. rewrite Ha in E.
     destruct (target_json st c (a_target av)) as [tj|] eqn:Et; [|discriminate].
-    destruct (target_ok (a_target av) tj Hn Hr Et) as (ttext & Htt & Ltt).
+    destruct (target_ok (a_target av) tj Et) as (ttext & Htt & Ltt).
     assert (Hacc : match a_target av with SKey | SData => False | _ => True end)
       by (destruct (a_target av); try exact I; discriminate).
     unfold to_webannotation. rewrite Ha, Htt.
@@ -1351,12 +1317,11 @@ Theorem export_parses st c a av j :
   cfg_plain c = true ->
   get_ann st a = Some av ->
   forallb (value_ok) (a_data av) = true ->
-  no_nested_unexportable (a_target av) = true -> ranges_ok (a_target av) = true ->
   export_ast st c a = Some j ->
   exists s, to_webannotation st c a = Some s /\ parse_json s = Some j /\ is_object j = true.
 Proof.
-  intros Hc Ha Hv Hn Hr E.
-  destruct (export_lex st c Hc a av j Ha Hv Hn Hr E) as (s & Hs & L).
+  intros Hc Ha Hv E.
+  destruct (export_lex st c Hc a av j Ha Hv E) as (s & Hs & L).
   exists s. split; [exact Hs|]. split.
   - apply parse_json_of_lex. apply LX_lex. apply LXs_LX. exact L.
   - unfold export_ast in E. rewrite Ha in E. destruct (target_json st c (a_target av)); [|discriminate].
